@@ -226,6 +226,23 @@ def theorem_statements(vfile, limit=3):
     return [re.sub(r'\s+', ' ', t).strip()[:700] for t in ths[:limit]]
 
 
+def extract_targets(pid):
+    """.vo files the extraction file of a property requires (built before extraction)."""
+    try:
+        src = open(f'{COQ}/extract/Extract{pid}.v').read()
+    except OSError:
+        return []
+    names = set()
+    for m in re.finditer(r'From\s+Tink\s+Require\s+(?:Import|Export)?\s*([^.]+)\.', src):
+        names.update(m.group(1).split())
+    out = []
+    for d in ('lib', 'gen', 'model', 'proofs'):
+        for n in sorted(names):
+            if os.path.exists(f'{COQ}/{d}/{n}.v'):
+                out.append(f'{d}/{n}.vo')
+    return out
+
+
 def build_model(pid):
     """Extract and compile the OCaml model driver of a property."""
     return sh([f'{V}/tools/build_model.sh', pid.lower(), COQ, WS], timeout=1800, env=dict(os.environ, VERIF_HOME=V))
